@@ -280,6 +280,11 @@ func runDsync(r *simkit.Run, c Cfg, mode dsMode) {
 		d.atHead = true
 		sopts = append(sopts, dagsync.HttpTimeout(10*time.Minute))
 	}
+	// options are independent of each other: hand them over in a drawn order
+	for i := len(sopts) - 1; i > 0; i-- {
+		j := tp.Choose(i+1, "optOrder")
+		sopts[i], sopts[j] = sopts[j], sopts[i]
+	}
 	d.sub = w.NewSubscriber(sopts...)
 	d.sub.ParkHooks = true
 	r.Logf("~cfg", "mode=%s pubs=%d limit=%d idleTTL=%v seg=%d sites=%v", mode.name, npub, d.limit, idle, seg, on)
